@@ -572,6 +572,41 @@ Section Leaves.
     | _ => []
     end.
 
+  (* side condition of "none unused" for maps: the key texts of every map in the value are pairwise distinct (then no
+     entry is dropped by the last-write-wins table keyValues).  True of every map whose keys are of a scalar kind
+     (C10: key_text_inj). *)
+  Definition ktext (local : bytes -> bytes) (kt : VL.gotype) (k : goval) : bytes :=
+    match vlit local false kt k with
+    | Ok kl => VL.print_lit quote local kl
+    | _ => []
+    end.
+
+  Fixpoint nodupb (l : list bytes) : bool :=
+    match l with
+    | [] => true
+    | x :: r => negb (existsb (bytes_eqb x) r) && nodupb r
+    end.
+
+  Fixpoint keys_distinct (local : bytes -> bytes) (t : VL.gotype) (v : goval) {struct v} : bool :=
+    match v with
+    | VL.VPtr x => match VL.under t with VL.TPtr e => keys_distinct local e x | _ => true end
+    | VL.VStruct vs =>
+        match VL.under t with
+        | VL.TStruct fs => all2 (fun (f : bytes * VL.gotype) (x : goval) => keys_distinct local (snd f) x) fs vs
+        | _ => true
+        end
+    | VL.VMap _ m =>
+        match VL.under t with
+        | VL.TMap kt et =>
+            nodupb (map (fun kv => ktext local kt (fst kv)) m)
+            && forallb (fun kv => keys_distinct local kt (fst kv) && keys_distinct local et (snd kv)) m
+        | _ => true
+        end
+    | VL.VSlice _ l => match VL.under t with VL.TSlice e => forallb (keys_distinct local e) l | _ => true end
+    | VL.VArray l => match VL.under t with VL.TArray _ e => forallb (keys_distinct local e) l | _ => true end
+    | _ => true
+    end.
+
   Definition add_all (ps : list bytes) (e : renv) : renv := fold_left (fun e p => TL.tr_add pick p e) ps e.
 
   (* snippet.Value(x).Frag / %v: the literal is C10's, printed with the names of the tracker AFTER the packages of its
